@@ -21,6 +21,7 @@ import (
 	"verif/harness/internal/c16"
 	"verif/harness/internal/c17"
 	"verif/harness/internal/c19"
+	"verif/harness/internal/c20"
 )
 
 func main() {
@@ -43,6 +44,8 @@ func main() {
 		os.Exit(c14.Main(os.Args[2:]))
 	case "c15":
 		os.Exit(c15.Main(os.Args[2:]))
+	case "c20":
+		os.Exit(c20.Main(os.Args[2:]))
 	case "c19":
 		os.Exit(c19.Main(os.Args[2:]))
 	case "c10":
